@@ -24,7 +24,7 @@ MIN_NONTRIVIAL = {"quick": 250, "thorough": 2500}
 REQUIRED_FEATURES = ["path:api", "path:sanitize_pixels", "path:cli-cload-pairs", "path:cli-load-bg2", "path:cli-load-coo",
                      "path:tabix", "fate:out-of-range:pos=length", "fate:out-of-range:pos=-1", "fate:unknown-chrom",
                      "tril:reflect", "tril:drop", "tril:none", "one-based", "zero-based", "records:on-bin-edge",
-                     "records:same-anchor", "sided-fields"]
+                     "records:same-anchor", "sided-fields", "path:cli-cload-tabix"]
 
 
 def plan(tier, seed):
@@ -391,12 +391,25 @@ def one_case(ctx, cid, rng, path, idx):
             cs = gen.bt_chromsizes(bt)
             raised = None
             out_uri = os.path.join(d, "tbx.cool")
-            try:
-                it = TabixAggregator(gzp, cs, gen.bt_frame(bt, categorical=True), is_one_based=one_based,
-                                     n_chunks=int(rng.integers(1, 4)), C2=2, P2=3)
-                cooler.create_cooler(out_uri, bins, it, ordered=True)
-            except (BadInputError, ValueError) as e:
-                raised = f"{type(e).__name__}: {str(e)[:100]}"
+            if rng.random() < 0.5:
+                from click.testing import CliRunner
+                from cooler.cli import cli
+                bed = bins_bed(d, bt)
+                args = ["cload", "tabix", "-c2", "3", "-p2", "4", "-p", str(int(rng.integers(1, 3))),
+                        "-s", str(int(rng.integers(1, 4)))] + ([] if one_based else ["-0"]) + [bed, gzp, out_uri]
+                r = CliRunner().invoke(cli, args)
+                c.feature("path:cli-cload-tabix")
+                if r.exit_code != 0:
+                    raised = f"{type(r.exception).__name__}: {str(r.exception)[:100]}"
+                    if not isinstance(r.exception, (ValueError, SystemExit)):
+                        raise r.exception
+            else:
+                try:
+                    it = TabixAggregator(gzp, cs, gen.bt_frame(bt, categorical=True), is_one_based=one_based,
+                                         n_chunks=int(rng.integers(1, 4)), C2=2, P2=3)
+                    cooler.create_cooler(out_uri, bins, it, ordered=True)
+                except (BadInputError, ValueError) as e:
+                    raised = f"{type(e).__name__}: {str(e)[:100]}"
             if want is None:
                 c.check(raised is not None, f"out-of-range-accepted:{bad_kind}:tabix",
                         f"tabix loader counted a record with {bad_kind} (second anchor) instead of rejecting it")
